@@ -61,6 +61,8 @@ def sfOp (op : String) (a b : Nat) : Option String :=
   | "mul64" => some (showF64 ⟨sfMul b64 a b⟩)
   | "div64" => some (showF64 ⟨sfDiv b64 a b⟩)
   | "div32" => some (showF32 ⟨sfDiv b32 a b⟩)
+  | "rp32" => some (showF32 ⟨roundPack b32 false a ((b : Int) - 4096)⟩)
+  | "rp64" => some (showF64 ⟨roundPack b64 false a ((b : Int) - 4096)⟩)
   | "cvt" => some (showF32 (F64.toF32 ⟨a⟩))
   | "ext" => some (showF64 (F32.toF64 ⟨a⟩))
   | "m10" => some (showF32 (mul10 (⟨a⟩ : F32)))
@@ -118,6 +120,9 @@ def stepLine (_ : Unit) (line : String) : Unit × String :=
         let m ← parseBytes? m
         pure (atofLine32 false (atof32 F64.toF32 (m.map (·.toNat))))
     | ["a64", m] => do
+        let m ← parseBytes? m
+        pure (atofLine64 true (atof64 (m.map (·.toNat))))
+    | ["a64u", m] => do
         let m ← parseBytes? m
         pure (atofLine64 true (atof64 (m.map (·.toNat))))
     | ["strtod", m] => do
